@@ -173,6 +173,7 @@ class Summ:
             return None
         if k == 'DeclStmt':
             out = []
+            incs = []
             for d in s.get('c') or ():
                 if d.get('k') != 'VarDecl':
                     continue
@@ -180,12 +181,33 @@ class Summ:
                     continue        # only a name for its initialiser: substituted into its uses by canon()
                 if d['loc'] in self.mutated or not isinstance(d.get('init'), dict) or d.get('bindings') or not self.subst:
                     init = self.term(d['init']) if isinstance(d.get('init'), dict) else None
+                    inc = None
+                    if isinstance(init, tuple) and len(init) == 2 and init[0] == 'post++':
+                        init, inc = init[1], ('++', init[1])        # `T v = x++;` is `T v = x; ++x;`
                     out.append(('decl', self.rw(self.name_of(d)), init) if not d.get('bindings') else ('bind', len(d['bindings']), init))
+                    if inc is not None:
+                        incs.append(inc)
                 # pure, never-mutated locals are substituted into their uses
+            if incs:
+                return ([tuple(out)] if out else []) + incs
             return tuple(out) if out else None
         if k in ('CXXForRangeStmt',):
             sl = s['slots']
             return ('foreach', self.name_of(sl['var']) if sl['var'].get('name') else len(sl['var'].get('bindings') or ()), self.term(sl['range']), self.paths(sl['body'], loop=True))
+        if k == 'ForStmt' and s['slots'].get('init') is not None and s['slots'].get('cond') is not None and s['slots'].get('body') is not None:
+            # for (init; cond; inc) body  is  init; while (cond) { body; inc; }  when no `continue` skips to the increment
+            from .normalize import _own_continue
+            sl = s['slots']
+            if sl.get('inc') is None or not _own_continue(sl['body']):
+                b = sl['body']
+                sts = list(b.get('c') or ()) if b.get('k') == 'CompoundStmt' else [b]
+                nb = {'k': 'CompoundStmt', 'c': sts + ([sl['inc']] if sl.get('inc') is not None else []), 'loc': b.get('loc')}
+                out = []
+                e0 = self.stmt(sl['init']) if sl['init'].get('k') == 'DeclStmt' else self.term(sl['init'])
+                if e0 is not None:
+                    out.append(e0)
+                out.append(('WhileStmt', None, self.term(sl['cond']), None, self.paths(nb, loop=True)))
+                return out
         if k in ('ForStmt', 'WhileStmt', 'DoStmt'):
             sl = s['slots']
             return (k, self.term(sl.get('init')) if sl.get('init') and sl['init'].get('k') != 'DeclStmt' else (self.stmt(sl['init']) if sl.get('init') else None),
@@ -203,7 +225,10 @@ class Summ:
             return None
         if k == 'GotoStmt':
             return ('goto', s.get('label'))
-        return self.term(s)
+        t = self.term(s)
+        if isinstance(t, tuple) and len(t) == 2 and t[0] == 'post++':
+            t = ('++', t[1])            # the value of `x++;` as a statement is not used
+        return t
 
     def paths(self, body, loop=False):
         self._depth = getattr(self, '_depth', 0) + 1
@@ -244,7 +269,10 @@ class Summ:
                 e = self.stmt(s)
                 if e is None:
                     continue
-                effs.append(e)
+                if isinstance(e, list):
+                    effs.extend(e)          # a statement that is several effects (a `for` is its initialisation and a `while`)
+                else:
+                    effs.append(e)
             if self._depth == 1:
                 # the locals that survive in the summary are numbered per path, by first appearance in the order things happen: declaring a local once
                 # before a branch or once in every arm, in this or that order, is the same path
@@ -253,7 +281,10 @@ class Summ:
                     _collect_locals(t, m)
                 conds = [_rename_locals(c, m) for c in conds]
                 effs = [_rename_locals(e, m) for e in effs]
-            out.append((tuple(conds), tuple(sorted(effs, key=repr)), 'fall' if (loop and p.end == 'continue') else p.end))      # `continue` = reaching the end of the loop body
+            if not effs and (p.end == 'fall' or (loop and p.end == 'continue')):
+                conds = []          # doing nothing needs no reason: the no-op paths are the complement of the others, however the tests that lead to them are nested
+            # the decisions of a path are tests without effects: which of them is made first does not change what the path is
+            out.append((tuple(sorted(conds, key=repr)), tuple(sorted(effs, key=repr)), 'fall' if (loop and p.end == 'continue') else p.end))      # `continue` = reaching the end of the loop body
         return PathSet(sorted(set(out), key=repr))
 
     def summary(self):
